@@ -139,7 +139,9 @@ theorem duplicate_id_rejected (s : State) (sender to : Addr) (coins : Coins) (lo
   · exact ⟨_, rfl⟩
   · split
     · exact ⟨_, rfl⟩
-    · simp [AMap.contains, hg]
+    · split
+      · exact ⟨_, rfl⟩
+      · simp [AMap.contains, hg]
 
 /-! ### a claim with the right secret of an open contract is accepted -/
 
